@@ -260,6 +260,16 @@ def c11(ctx):
             t, files, written = GT.build_consistent(r, c, allow_multi=False, dups=False)
             if any(os.path.basename(p).startswith('Manifest') for p in files):
                 continue
+            if case_no < 3:
+                # the minimal input of finding D33, first on every seed: dir/sub/Manifest lists f; a foreign dir/Manifest with a duplicate,
+                # stale entry for sub/f is dropped in (see the first round below)
+                t = GT.Tree()
+                t.add_dir('dir')
+                t.add_dir('dir/sub')
+                t.add_file('dir/sub/f', b'hello', mtime=1500000000)
+                t.add_file('dir/sub/Manifest', b'', mtime=1500000000)
+                t.add_file('Manifest', b'MANIFEST dir/sub/Manifest 0\n', mtime=1500000000)
+                files = {'dir/sub/f': b'hello'}
             tz = r.choice(TZS)
             stats['tz'][tz] = stats['tz'].get(tz, 0) + 1
             hashes = r.choice(PT.HASHSETS)
@@ -302,6 +312,28 @@ def c11(ctx):
                         t_now = t_prev - r.choice([30, 500, 86400])
                         stats['clock_stepped_back'] = stats.get('clock_stepped_back', 0) + 1
                     ops = gen_history(r, live, t_prev)
+                    if case_no < 3 and rnd == 0:
+                        ops = [['add', 'dir/Manifest', ('DATA sub/f 5 %s\n' % ' '.join('%s %s' % (h, '0' * 40) for h in hashes[:case_no + 1])).encode(), t_prev - 50]]
+                        stats['foreign_manifest_with_duplicate'] = stats.get('foreign_manifest_with_duplicate', 0) + 1
+                        stats['foreign_manifest_above_a_registered_one'] = stats.get('foreign_manifest_above_a_registered_one', 0) + 1
+                    elif r.random() < 0.12:
+                        # a foreign Manifest dropped into a directory above a listed file (old mtime, as tar -x leaves it), holding a duplicate
+                        # entry for that file with the recorded size and a stale digest: the entry that stays is completed from it
+                        cand = [(p, A) for p in sorted(live) if os.path.exists(os.path.join(a, p)) and os.path.getsize(os.path.join(a, p)) > 0
+                                for A in [os.path.dirname(p)] + ([os.path.dirname(os.path.dirname(p))] if p.count('/') >= 2 else [])
+                                if A and os.path.isdir(os.path.join(a, A)) and not any(n.startswith('Manifest') for n in os.listdir(os.path.join(a, A)))]
+                        # preferably a file that a Manifest BELOW the new one lists: the entry that stays is then the old, checked one
+                        deep = [(p, A) for p, A in cand if A != os.path.dirname(p)
+                                and any(n.startswith('Manifest') for n in os.listdir(os.path.join(a, os.path.dirname(p))))]
+                        if deep and r.random() < 0.8:
+                            cand = deep
+                            stats['foreign_manifest_above_a_registered_one'] = stats.get('foreign_manifest_above_a_registered_one', 0) + 1
+                        if cand:
+                            fp, A = r.choice(cand)
+                            line = 'DATA %s %d %s\n' % (os.path.relpath(fp, A).replace(' ', '\\x20'), os.path.getsize(os.path.join(a, fp)),
+                                                        ' '.join('%s %s' % (h, '0' * 40) for h in r.choice([hashes, hashes[:1]])))
+                            ops.append(['add', A + '/Manifest', line.encode(), t_prev - 50])
+                            stats['foreign_manifest_with_duplicate'] = stats.get('foreign_manifest_with_duplicate', 0) + 1
                     sizes = {p: os.path.getsize(os.path.join(a, p)) for p in live if os.path.exists(os.path.join(a, p))}
                     # a file modified during the previous scan counts as modified at (previous start + 1 s)
                     ok = premise_ok(([['same', injected[0], 0, t_prev + 1]] if injected and injected[0] in sizes else []) + ops, t_prev, sizes)
